@@ -17,17 +17,18 @@ def variantName : OpType → String
   | .tryUpdateActiveBlob => "TryUpdateActiveBlob"
   | .deferredDumpBlobIndexes => "DeferredDumpBlobIndexes"
 
-/-- the calls `Pearl.processOp` stands for, per request kind (`?` = the error leaves `process_msg`):
-    `replaceActive`, `closeActive`, `tryCreateActive`, `restoreActive`, `tryRunDump`, `tryRunFsync`,
-    `tryUpdateActive` then `tryRunDump` / `deferDump`, `deferDump` -/
+/-- the calls `Pearl.processOp` stands for, per request kind (`?` = the error leaves `process_msg`, `!` = the result
+    is negated in the condition that guards what follows):
+    `replaceActive`, `closeActive`, `tryCreateActive`, `restoreActive`, `tryRunDump` then `deferDump` when no task was
+    started (since the repair of E27), `tryRunFsync`, `tryUpdateActive` then `tryRunDump` / `deferDump`, `deferDump` -/
 def modelCalls : OpType → String
   | .forceUpdateActiveBlob => "update_active_blob?"
   | .closeActiveBlob => "close_active_blob?"
   | .createActiveBlob => "create_active_blob?"
   | .restoreActiveBlob => "restore_active_blob?"
-  | .tryDumpBlobIndexes => "try_run_old_blob_indexes_dump_task"
+  | .tryDumpBlobIndexes => "!try_run_old_blob_indexes_dump_task defer_blob_indexes_dump?"
   | .tryFsyncData => "try_run_fsync_task"
-  | .tryUpdateActiveBlob => "try_update_active_blob? try_run_old_blob_indexes_dump_task defer_blob_indexes_dump?"
+  | .tryUpdateActiveBlob => "try_update_active_blob? !try_run_old_blob_indexes_dump_task defer_blob_indexes_dump?"
   | .deferredDumpBlobIndexes => "defer_blob_indexes_dump?"
 
 /-- every arm of `process_msg` in the source is the arm of `processOp` with the same calls, and there is no other arm -/
